@@ -283,3 +283,17 @@ pub(crate) fn stub_apply(r: &mut Rc4, stream: &mut [u8]) {
 pub(crate) fn is_stub_after_one_apply(r: &Rc4) -> bool {
     r.state[0] == 0xA5 && r.state[1] == 1 && r.i == 0 && r.j == 0
 }
+
+// ---- keystream as an uninterpreted function of the key (matrix card, C18) ----
+/// Kani stub for `Rc4::new`: the first 40 keystream bytes are an uninterpreted function of the key.
+pub(crate) fn stub_new_pad(key: &[u8]) -> Rc4 {
+    verif_oracle::bump(3);
+    let o = verif_oracle::uf(verif_oracle::USER + 60, &[key]);
+    let mut state = [0u8; 256];
+    let mut k = 0;
+    while k < 40 {
+        state[k + 1] = o[k];
+        k += 1;
+    }
+    Rc4 { state, i: 0, j: 0 }
+}
